@@ -28,7 +28,7 @@ ASSUMPTIONS = [
 
 def budgets(tier):
     if tier == "quick":
-        return {"examples": 250, "max_s": 80, "shrink_s": 20, "shards": 1}
+        return {"examples": 250, "max_s": 110, "shrink_s": 20, "shards": 1}
     return {"examples": 2000, "max_s": 700, "shrink_s": 90, "shards": 16}
 
 
@@ -194,7 +194,8 @@ def check_case(case):
             nf = max(1, min(case.get("theta_files", 1), n))
             cuts = [round(i * n / nf) for i in range(nf + 1)]
             for a_, b_ in zip(cuts, cuts[1:]):
-                tf = tmp.fresh("thetas_%d.h5" % a_, odd=None if case.get("odd_paths") is None else case["odd_paths"] + 3 + a_)
+                same_name = (case.get("odd_paths") or 0) % 3 == 1  # (chain files with equal base names in directories of their own)
+                tf = tmp.fresh("thetas.h5" if same_name else "thetas_%d.h5" % a_, odd=None if case.get("odd_paths") is None else case["odd_paths"] + 3 + a_, own_dir=same_name)
                 paths.append(tf)
                 S.build_holder(case["thetas"][a_:b_]).save_h5(tf)
                 theta_files.append(tf)
